@@ -37,10 +37,10 @@ type group struct {
 // ---- value alphabets ----------------------------------------------------------------------------
 
 var symbolNames = map[string]string{`"`: "quote", `\`: "backslash", ` `: "space", `a`: "a", `O`: "O", `R`: "R", `(`: "lparen", `)`: "rparen", `=`: "eq", `1`: "1",
-	`é`: "e-acute", "\n": "newline", "😀": "emoji", `'`: "apostrophe", `~`: "tilde"}
+	`é`: "e-acute", "\n": "newline", "😀": "emoji", `'`: "apostrophe", `~`: "tilde", "“": "left-curly-quote", "”": "right-curly-quote"}
 
 var sigma = []string{`"`, `\`, ` `, `a`, `O`, `R`, `(`, `)`, `=`, `1`, `é`}
-var sigmaPlus = append(append([]string{}, sigma...), "\n", "😀", `'`, `~`)
+var sigmaPlus = append(append([]string{}, sigma...), "\n", "😀", `'`, `~`, "“", "”")
 
 // stringsUpTo enumerates every string of at most n symbols over the alphabet whose first symbol
 // index is congruent to the given residue (for sharding), or all when mod <= 1.
@@ -365,6 +365,10 @@ func templateGroups(alpha []string, maxLen int, cfgs []Cfg) []group {
 					for _, cfg := range cfgs {
 						if !tpl.two {
 							emit(&Case{Kind: "template", Cfg: cfg, Template: ti, V: v})
+							// the same value reached through an object with a default (the short form
+							// @results.answer instead of @results.answer.value) and through an array
+							emit(&Case{Kind: "template", Cfg: cfg, Template: ti, V: v, Holder: "object"})
+							emit(&Case{Kind: "template", Cfg: cfg, Template: ti, V: v, Holder: "array"})
 							continue
 						}
 						for _, ctxv := range contextValues {
